@@ -11,6 +11,12 @@ theorem bind_ok {α β : Type} {x : M α} {f : α → M β} {b : β}
 theorem bind_ok' {α β : Type} {x : M α} {f : α → M β} {b : β}
     (h : (do let a ← x; f a) = .ok b) : ∃ a, x = .ok a ∧ f a = .ok b := bind_ok h
 
+theorem bind_err {α β : Type} {x : M α} {f : α → M β} {e : Err}
+    (h : (x >>= f) = .error e) : x = .error e ∨ ∃ a, x = .ok a ∧ f a = .error e := by
+  cases x with
+  | error e' => left; simpa [bind, Except.bind] using h
+  | ok a => right; exact ⟨a, rfl, by simpa [bind, Except.bind] using h⟩
+
 @[simp] theorem ok_bind {α β : Type} (a : α) (f : α → M β) : ((Except.ok a : M α) >>= f) = f a := rfl
 @[simp] theorem error_bind {α β : Type} (e : Err) (f : α → M β) : ((Except.error e : M α) >>= f) = .error e := rfl
 @[simp] theorem pure_eq_ok {α : Type} (a : α) : (pure a : M α) = .ok a := rfl
